@@ -7,7 +7,7 @@ accessors: lean/Cellml/Tie/RolesView.lean."""
 GROUP = {
     'name': 'RolesValue',
     'imports': ['Cellml.Generated.Code.Roles'],
-    'header': 'open Model',
+    'header': 'open Cellml.Tie.PRoles\nopen Model',
     'functions': [
         {'file': 'cellmlmanip/model.py',
          'func': 'Model._get_value.expand_derivatives',
